@@ -10,15 +10,16 @@ Rec == ndJsonDeserialize(IOEnv.TRACE)
 VARIABLES l, skip, run, nviol,
           tkind,      \* topic name ("A"/"B") -> pattern, as decided by the first served registration
           holder,     \* task id holding the topics lock (0 = free), from hook events
-          expectOk    \* reply expected for the open whose first_reply comes next
-tvars == <<l, skip, run, nviol, tkind, holder, expectOk>>
+          expectOk,   \* reply expected for the open whose first_reply comes next
+          created     \* names for which handle_stream has spawned a router (hook events), whole server run
+tvars == <<l, skip, run, nviol, tkind, holder, expectOk, created>>
 
 KindOf(role) == IF role \in {"pub", "sub"} THEN "pubsub" ELSE "reqrep"
-TraceInit == l = 1 /\ skip = TRUE /\ run = 0 /\ nviol = 0 /\ tkind = [t \in {"A", "B"} |-> "none"] /\ holder = 0 /\ expectOk = FALSE
+TraceInit == l = 1 /\ skip = TRUE /\ run = 0 /\ nviol = 0 /\ tkind = [t \in {"A", "B"} |-> "none"] /\ holder = 0 /\ expectOk = FALSE /\ created = {}
 
 Flag(props, kind) == /\ PrintT(<<"VIOL", run, l, props, kind>>)
-                     /\ skip' = TRUE /\ nviol' = nviol + 1 /\ UNCHANGED <<run, tkind, holder, expectOk>>
-Stutter == UNCHANGED <<skip, run, nviol, tkind, holder, expectOk>>
+                     /\ skip' = TRUE /\ nviol' = nviol + 1 /\ UNCHANGED <<run, tkind, holder, expectOk, created>>
+Stutter == UNCHANGED <<skip, run, nviol, tkind, holder, expectOk, created>>
 
 Step(e) ==
     CASE e.ev = "first_reply" ->
@@ -32,18 +33,20 @@ Step(e) ==
             THEN IF e.reply = "error" THEN Stutter
                  ELSE Flag({"C11"}, "pattern_mismatch_answered_" \o e.reply)
             ELSE IF e.reply = "ok"
-                 THEN tkind' = [tkind EXCEPT ![e.topic] = KindOf(e.frame)] /\ UNCHANGED <<skip, run, nviol, holder, expectOk>>
+                 THEN tkind' = [tkind EXCEPT ![e.topic] = KindOf(e.frame)] /\ UNCHANGED <<skip, run, nviol, holder, expectOk, created>>
                  ELSE Flag({"C11"}, "valid_registration_answered_" \o e.reply)
       [] e.ev = "hs_lock_acquired" ->
             \* (a release whose hook event is missing is not a verdict: the acquisition proves it happened)
-            holder' = e.task /\ UNCHANGED <<skip, run, nviol, tkind, expectOk>>
+            holder' = e.task /\ UNCHANGED <<skip, run, nviol, tkind, expectOk, created>>
       [] e.ev = "hs_lock_released" ->
-            holder' = 0 /\ UNCHANGED <<skip, run, nviol, tkind, expectOk>>
+            holder' = 0 /\ UNCHANGED <<skip, run, nviol, tkind, expectOk, created>>
       [] e.ev = "hs_send_begin" ->
             \* C17: nobody waits for room in a topic's channel while holding the global lock
             IF holder = e.task THEN Flag({"C17"}, "channel_send_while_holding_global_lock") ELSE Stutter
-      [] e.ev = "hs_topic_created" ->
-            IF \E i \in 1..Len(e.topic) : FALSE THEN Stutter ELSE Stutter
+      [] e.ev = "race_round" ->
+            \* ServerReg!Inv_OneRouterPerTopic seen from outside: peers told Ok on one name reach each other
+            IF e.res = "ok" THEN Stutter
+            ELSE Flag(IF e.pattern = "pubsub" THEN {"C01"} ELSE {"C02"}, "concurrently_registered_peers_of_one_topic_do_not_reach_each_other")
       [] e.ev = "probe" ->
             IF e.res = "ok" THEN Stutter ELSE Flag({"C11", "C08"}, "topic_unusable_after_frame_sequence_" \o e.pattern)
       [] e.ev = "other_topic_roundtrip" ->
@@ -58,10 +61,19 @@ Step(e) ==
       [] OTHER -> Stutter
 
 NewCase(e) == /\ skip' = FALSE /\ run' = e.run /\ nviol' = nviol
-              /\ tkind' = [t \in {"A", "B"} |-> "none"] /\ holder' = holder /\ expectOk' = FALSE
+              /\ tkind' = [t \in {"A", "B"} |-> "none"] /\ holder' = holder /\ expectOk' = FALSE /\ created' = created
+
+\* ServerReg!Inv_OneRouterPerTopic at the hook: a router is spawned for a name at most once (topics are never
+\* removed); followed in skip mode too, so that the set stays complete
+Created(e) == IF e.topic \in created
+              THEN /\ PrintT(<<"VIOL", run, l, {"C01", "C02"}, "second_router_spawned_for_an_existing_topic">>)
+                   /\ skip' = TRUE /\ nviol' = nviol + 1 /\ UNCHANGED <<run, tkind, holder, expectOk, created>>
+              ELSE created' = created \cup {e.topic} /\ UNCHANGED <<skip, run, nviol, tkind, holder, expectOk>>
 
 TraceNext == /\ l <= Len(Rec) /\ l' = l + 1
-             /\ LET e == Rec[l] IN IF e.ev = "case" THEN NewCase(e) ELSE IF skip THEN Stutter ELSE Step(e)
+             /\ LET e == Rec[l] IN IF e.ev = "case" THEN NewCase(e)
+                                   ELSE IF e.ev = "hs_topic_created" THEN Created(e)
+                                   ELSE IF skip THEN Stutter ELSE Step(e)
 TraceSpec == TraceInit /\ [][TraceNext]_tvars
 TraceAccepted == LET d == TLCGet("stats").diameter IN
                  IF d - 1 = Len(Rec) THEN TRUE ELSE Print(<<"TRACE NOT CONSUMED", d, Len(Rec)>>, FALSE)
